@@ -56,6 +56,7 @@ def roundtrip(ctx, msg, mtype, fields):
             e, v = call(fn)
             ctx.holds("getters of other message kinds return None", e is None and v is None, "%s: %s" % (k, exc_name(e) if e is not None else "returned a value"))
     ctx.holds("repack identical", r.pack() == raw)
+    pack_hands_out_fresh_buffers(ctx, msg.pack, ref)
     return r
 
 
